@@ -180,6 +180,9 @@ VARIANTS = {
     # name: (rustflags extra, env, cargo args, profile)
     "default": ("", {}, [], "release"),
     "dbg": ("", {}, [], "dbg"),
+    # release code generation (no debug assertions: `cfg!(debug_assertions)` branches are compiled out) but
+    # with arithmetic overflow checks: an overflow the release build would silently wrap is a panic here
+    "ovf": ("-C overflow-checks=on", {}, [], "release"),
     "sse42ct": ("-C target-feature=+sse4.2", {}, [], "release"),
     "avx2ct": ("-C target-feature=+avx2", {}, [], "release"),
     "nosimd": ("", {"CARGO_CFG_HTTPARSE_DISABLE_SIMD": "1"}, [], "release"),
